@@ -48,3 +48,13 @@ chk("C15", "fault_enumeration",
     "fault servers and their request logs; class table from DESIGN.md (404 on config/flags/metadata and truncated bodies are don't-care for stop-or-continue); for closed ports and abandoned timeouts only positive contact evidence is used; TLS/proxy faults not injected",
     "runtime monitoring: fault-table enumeration with a reference automaton over request logs + Go race detector",
     "DESIGN.md §3 C15")
+chk("C03", "exploration",
+    "reference-model monitor over generated git histories: real git (fast-import) scratch repositories with 54 operation kinds plus 17 directed shapes, the real `pint ci` with one state-matched marker block per state, a default block and the H1 dump; every rule at HEAD must get a state the model-based reference accepts, marker/default/built-in checks must run on exactly the changed rules, no ghost or missing entries, fresh lines must be in ModifiedLines, and advancing the base branch must change nothing (metamorphic re-run).",
+    "git's own rename detection (diff-tree -M) defines file identity; the generator's renderer is guarded by a self-check against what pint parsed; arguable base versions accept every defensible answer; symlinks, merges and submodules are not generated; the stale-deletion-record defect is a listed known finding",
+    "reference-model monitor over generated histories executed by the real pint ci binary (H1 dump + JSON report)",
+    "DESIGN.md §3 C03")
+chk("C20", "exploration",
+    "reference dependency graph kept by a history generator vs rule/dependency problems of the real `pint ci --json` in git scratch repositories: every removed recording/alerting rule without a same-kind same-name rule at HEAD and with a certain dependant must get exactly one Warning on its base lines listing exactly the certain dependants; kept, replaced or unused rules must get none; decoys must never be listed. 400 / 6000 histories per seed.",
+    "selector classes are known by construction (never parsed from pint); regexp/negative matchers and branch-added dependants are don't-care; no symlinks, control comments or broken files at HEAD",
+    "reference-model monitor over generated histories executed by the real pint ci binary (JSON report + H1 dump)",
+    "DESIGN.md §3 C20")
